@@ -26,6 +26,7 @@ def check(case, ctx):
     opl, ns, nested, mode = case["body"], case["ns"], case["nested"], case["mode"]
     pos = [0]
     viol = []
+    wrong_awaits = []      # (operation index, kind, awaited value, what the body received instead)
 
     @A()
     def child(v):
@@ -40,13 +41,16 @@ def check(case, ctx):
                 yield Value(v)
             elif k == "const":
                 r = yield ConstFuture(v)
-                assert r == v
+                if r != v:
+                    wrong_awaits.append((i, k, v, r))
             elif k == "item":
                 r = yield DebugBatchItem("g", v)
-                assert r == v
+                if r != v:
+                    wrong_awaits.append((i, k, v, r))
             else:
                 r = yield child.asynq(v)
-                assert r == v
+                if r != v:
+                    wrong_awaits.append((i, k, v, r))
 
     @async_generator()
     def outer():
@@ -138,6 +142,9 @@ def check(case, ctx):
                 bad("exhausted", "next() after exhaustion did not raise StopIteration")
             except StopIteration:
                 pass
+    if wrong_awaits and not viol:
+        i, k, v, r = wrong_awaits[0]
+        viol.append(("C17.await", "%s: operation %d awaited a %s future whose result is %r but the body was resumed with %r" % (desc, i, k, v, r)))
     trailing = bool(opl) and opl[-1][0] != "V"
     ctx.label("mode=" + mode)
     ctx.label("trailing-await", trailing)
